@@ -50,7 +50,22 @@ DOCS = {
     "d-loop": [[Bn("x"), P1, Bn("x"), D]],
     "d-ground": [[S1, P1, S2, D], [S1, P2, L("1", dt="http://www.w3.org/2001/XMLSchema#integer"), D]],
     "d-genid": [[S1, P1, Bn(GENID), D], [Bn(GENID), P2, L("g"), D]],
+    "d-anon": [[S1, P1, Bn("anon"), D], [Bn("anon"), P2, L("a"), D]],
 }
+# the same abstract document as d-x, spelt with an anonymous node where the syntax has one
+ANON_TEXT = {"turtle": '<%s> <%s> [ <%s> "a" ] .\n' % (S1["v"], P1["v"], P2["v"]), "n3": '<%s> <%s> [ <%s> "a" ] .\n' % (S1["v"], P1["v"], P2["v"]),
+             "trig": '<%s> <%s> [ <%s> "a" ] .\n' % (S1["v"], P1["v"], P2["v"]),
+             "xml": '<rdf:RDF xmlns:rdf="http://www.w3.org/1999/02/22-rdf-syntax-ns#"><rdf:Description rdf:about="%s"><p1 xmlns="%s" rdf:parseType="Resource"><p2 xmlns="%s">a</p2></p1></rdf:Description></rdf:RDF>' % (S1["v"], EX, EX),
+             "json-ld": '{"@id": "%s", "%s": {"%s": "a"}}' % (S1["v"], P1["v"], P2["v"])}
+G2, G3 = I(EX + "g2"), I(EX + "g3")
+
+
+def text_of(fm, dn, doc):
+    if dn == "d-anon" and fm in ANON_TEXT:
+        return ANON_TEXT[fm]
+    return docwriters.write(fm, doc)
+
+
 QDOCS = {
     "q-two-graphs": [[S1, P1, Bn("x"), D], [Bn("x"), P2, L("in g1"), G1]],
     "q-named-only": [[S2, P1, Bn("x"), G1], [Bn("x"), P1, S2, G1]],
@@ -78,13 +93,13 @@ def run(out, tier, seed):
                 fmts = [TRIPLE_FMTS[(si + ki + j * 2 + pre) % len(TRIPLE_FMTS)] for j in range(len(seq))]
                 evs = [{"op": "sink", "kind": kind, "content": [list(map(dict, q)) for q in content if kind != "graph" or q[3]["k"] == "default"] if pre else []}]
                 for dn, fm in zip(seq, fmts):
-                    evs.append({"op": "parse", "fmt": fm, "docname": dn, "doc": DOCS[dn], "text": docwriters.write(fm, DOCS[dn])})
+                    evs.append({"op": "parse", "fmt": fm, "docname": dn, "doc": DOCS[dn], "text": text_of(fm, dn, DOCS[dn])})
                 jobs.append({"cfg": {}, "events": evs})
     # same document in every syntax, twice
     for dn in names:
         for fm in TRIPLE_FMTS:
             for kind in sinks:
-                evs = [{"op": "sink", "kind": kind, "content": []}] + [{"op": "parse", "fmt": fm, "docname": dn, "doc": DOCS[dn], "text": docwriters.write(fm, DOCS[dn])}] * 2
+                evs = [{"op": "sink", "kind": kind, "content": []}] + [{"op": "parse", "fmt": fm, "docname": dn, "doc": DOCS[dn], "text": text_of(fm, dn, DOCS[dn])}] * 2
                 jobs.append({"cfg": {}, "events": [dict(e) for e in evs]})
     qnames = list(QDOCS)
     for a, b in itertools.product(qnames + names[:2], repeat=2):
@@ -98,6 +113,30 @@ def run(out, tier, seed):
                             # TriX has no default graph (an unnamed <graph> is an anonymous graph): use a named one instead
                             doc = [q[:3] + [I(EX + "g0") if q[3]["k"] == "default" else q[3]] for q in doc]
                         evs.append({"op": "parse", "fmt": fm, "docname": dn, "doc": doc, "text": docwriters.write(fm, doc)})
+                    jobs.append({"cfg": {}, "events": evs})
+    # parsing through a named-graph view of a dataset whose default graph is not empty: the document goes into that graph,
+    # nothing else changes; two documents with the same labels into two views stay apart
+    def into(doc, g):
+        return [q[:3] + [g] for q in doc]
+    for kind in sinks[1:]:
+        for fm in TRIPLE_FMTS:
+            for dn in ("d-x", "d-ground", "d-anon", "d-genid"):
+                for views in ((G2,), (G1,), (G2, G3), (G2, None), (None, G2)):
+                    evs = [{"op": "sink", "kind": kind, "content": [list(map(dict, q)) for q in content]}]
+                    for g in views:
+                        ev = {"op": "parse", "fmt": fm, "docname": dn, "doc": into(DOCS[dn], g) if g else DOCS[dn], "text": text_of(fm, dn, DOCS[dn])}
+                        if g:
+                            ev["into"] = g["v"]
+                        evs.append(ev)
+                    jobs.append({"cfg": {}, "events": evs})
+        for fm in QUAD_FMTS:
+            for dn in ("q-two-graphs", "q-named-only", "d-ground"):
+                doc = QDOCS.get(dn) or DOCS[dn]
+                if fm == "trix":
+                    doc = [q[:3] + [I(EX + "g0") if q[3]["k"] == "default" else q[3]] for q in doc]
+                for g in (G2, G1):
+                    evs = [{"op": "sink", "kind": kind, "content": [list(map(dict, q)) for q in content]},
+                           {"op": "parse", "fmt": fm, "docname": dn, "doc": doc, "text": docwriters.write(fm, doc), "into": g["v"], "addonly": True}]
                     jobs.append({"cfg": {}, "events": evs})
     out.exhaustive = not quick
     out.conform(__name__, TRACE, jobs, nontrivial=nontrivial, chunk=400, par=16, heap="2g")
